@@ -162,7 +162,9 @@ pub async fn request_certificate(
 		}
 
 		// Fetch the associated challenges
-		let current_identifier = cert.get_identifier_from_str(&auth.identifier.value)?;
+		let is_wildcard = auth.wildcard.unwrap_or(false);
+		let current_identifier =
+			cert.get_identifier_from_str(&auth.identifier.value, is_wildcard)?;
 		let current_challenge = current_identifier.challenge;
 		for challenge in auth.challenges.iter() {
 			if current_challenge == *challenge {
@@ -173,7 +175,7 @@ pub async fn request_certificate(
 
 				// Call the challenge hook in order to complete it
 				let mut data = cert
-					.call_challenge_hooks(&file_name, &proof, raw_proof, &identifier)
+					.call_challenge_hooks(&file_name, &proof, raw_proof, &identifier, is_wildcard)
 					.await?;
 				data.0.is_clean_hook = true;
 				hook_datas.push(data);
